@@ -137,7 +137,7 @@ Qed.
 
 (* predict: plurality among the listed neighbours; noise exactly when there are none or when
    unclustered neighbours strictly outnumber every cluster; ties go to the smallest cluster id *)
-Theorem predict_plurality : forall y c nbq,
+Lemma predict_plurality : forall y c nbq,
   (forall idx, In idx nbq -> (get y idx < Z.of_nat c)%Z) ->
   let r := predict_one y c nbq in
   (r = (-1)%Z \/ exists w, r = Z.of_nat w /\ w < c /\
